@@ -33,6 +33,17 @@ func genUniverse(r *common.Rand, size, maxDepth int) []enc.Name {
 	u := []enc.Name{{}}
 	seen := map[string]bool{"/": true}
 	width := r.Range(2, len(compPool))
+	pool := compPool
+	if r.Chance(1, 4) {
+		// one long component (beyond any small batching buffer a hash or key routine may use: 241,
+		// 253, 300 bytes), mostly not in first position
+		pool = append([]enc.Component(nil), compPool...)
+		long := make([]byte, common.Pick(r, []int{241, 253, 300}))
+		for i := range long {
+			long[i] = byte('a' + i%7)
+		}
+		pool[r.Intn(width)] = enc.Component{Typ: enc.TypeGenericNameComponent, Val: long}
+	}
 	for tries := 0; len(u) < size && tries < size*20; tries++ {
 		var base enc.Name
 		if r.Chance(2, 3) {
@@ -43,7 +54,7 @@ func genUniverse(r *common.Rand, size, maxDepth int) []enc.Name {
 		if len(base) >= maxDepth {
 			continue
 		}
-		n := append(base.Clone(), compPool[r.Intn(width)])
+		n := append(base.Clone(), pool[r.Intn(width)])
 		k := common.NameText(n)
 		if seen[k] {
 			continue
